@@ -47,3 +47,9 @@ func authorizeOnce(b *biscuit.Biscuit, pub ed25519.PublicKey, az m.Authz, panel 
 func scenarioText(tok m.Token, az m.Authz) string {
 	return "token " + tok.Text() + " | authorizer {" + az.Text() + "}"
 }
+
+func newAuthz(b *biscuit.Biscuit, pub ed25519.PublicKey, az m.Authz) (biscuit.Authorizer, error) {
+	return bridge.NewAuthorizer(b, pub, az)
+}
+
+func queryKey(a biscuit.Authorizer, q m.Rule) string { return bridge.QueryKey(a, q) }
